@@ -23,6 +23,7 @@ static long g_outpos = -1; // -1: append
 static std::string g_in;
 static size_t g_inpos = 0;
 static bool g_in_external = true;
+static bool g_in_eof = false;
 static std::string g_ext;
 static long g_trunc = -1;
 static std::vector<const void*> g_watch[2];
@@ -127,10 +128,12 @@ void sym_reach(const char* tag) {
 void sym_note(const char*, unsigned long) {}
 unsigned long sym_out_len() { return g_out.size(); }
 unsigned long sym_in_pos() { return g_inpos; }
+bool sym_in_eof() { return g_in_eof; }
 void sym_in_from_out(unsigned long a, unsigned long b) {
 	g_in = g_out.substr(a, b - a);
 	g_inpos = 0;
 	g_in_external = false;
+	g_in_eof = false;
 }
 void sym_in_rewind() { g_inpos = 0; }
 bool sym_out_equal(unsigned long a0, unsigned long a1, unsigned long b0, unsigned long b1) {
@@ -218,16 +221,22 @@ std::streamsize SymInBuf::xsgetn(char* s, std::streamsize n) {
 		return 0;
 	size_t avail = g_inpos < g_in.size() ? g_in.size() - g_inpos : 0;
 	size_t m = (size_t) n < avail ? (size_t) n : avail;
+	if (m < (size_t) n)
+		g_in_eof = true;
 	memcpy(s, g_in.data() + g_inpos, m);
 	g_inpos += m;
 	return (std::streamsize) m;
 }
 SymInBuf::int_type SymInBuf::underflow() {
 	if (g_inpos >= g_in.size())
+		g_in_eof = true;
+	if (g_inpos >= g_in.size())
 		return traits_type::eof();
 	return traits_type::to_int_type(g_in[g_inpos]);
 }
 SymInBuf::int_type SymInBuf::uflow() {
+	if (g_inpos >= g_in.size())
+		g_in_eof = true;
 	if (g_inpos >= g_in.size())
 		return traits_type::eof();
 	return traits_type::to_int_type(g_in[g_inpos++]);
